@@ -17,10 +17,12 @@ CONSTANTS
   AllowUnsub = FALSE
   AllowParentCancel = FALSE
   CtxCancels = 0
+  Redundant = 0
   WaitLocksMu = FALSE
   StatsBuffered = TRUE
   RecvWaitsFirst = FALSE
   KF_UnsubWindow = TRUE
+  CtlBuf = 0
 INVARIANTS TypeOK OnlyPublishedInv NoDuplicateInv ExactlyOnceInv OrderInv NoStall CtxRespected StopReturns CleanShutdown MutexFree
 PROPERTIES Dispatches PublishReturns Settles
 CHECK_DEADLOCK FALSE
